@@ -580,9 +580,14 @@ def run_chain_case(tw, case, rep=None):
         touched = False
 
         def touch():
-            c = [b"SET", watch[0], b"changed%d" % ri]
-            step(tw.b, c, "another-connection-changes-watched-key", conn=9001)
-            tw.impl(tw.tobs, c)
+            # the key is watched in the database the connection has selected (an earlier transaction may have SELECTed)
+            db = str(m.conn(cid)[0]).encode()
+            cs = [[b"SET", watch[0], b"changed%d" % ri]]
+            if db != b"0":
+                cs = [[b"SELECT", db]] + cs + [[b"SELECT", b"0"]]
+            for c in cs:
+                step(tw.b, c, "another-connection-changes-watched-key", conn=9001)
+                tw.impl(tw.tobs, c)
         if rd["pre"] in ("exec", "discard"):
             r0 = step(tw.a, [rd["pre"].upper().encode()], rd["pre"] + "-without-multi")
             oracle(r0 == "( e )", "%s without MULTI must be refused" % rd["pre"].upper(), got=r0, round=ri)
